@@ -458,6 +458,36 @@ func buildCases(r *vk.Run) []protox.Case {
 			}
 		}
 	}
+	// (vi'') the same with the data the second header announces: the new length is larger than what was
+	// reserved for the message in progress, and every continuation chunk up to that length (and two more)
+	// follows; also with a Set Chunk Size in between, after which the new length arrives in one chunk
+	for _, st := range []string{"handshaken", "publishing"} {
+		for _, have := range []int{1, 128} {
+			first := rawChunk(0, 3, 0, 300, 20, 0, false, 0, make([]byte, have))
+			if have < 128 {
+				first = rawChunk(0, 3, 0, uint32(have+200), 20, 0, false, 0, make([]byte, have))
+			}
+			for _, f := range []uint8{0, 1} {
+				for _, l := range []int{301, 1000, 4095, 4096, 4097, 8192, 70000} {
+					in := append(append(stagePrefixTail(st), first...), rawChunk(f, 3, 0, uint32(l), 20, 0, false, 0, make([]byte, 128))...)
+					for n := 0; n < (l+127)/128+2; n++ {
+						in = append(in, rawChunk(3, 3, 0, 0, 0, 0, false, 0, make([]byte, 128))...)
+					}
+					cs = append(cs, mkCase(st, "msglen-grows-mid-message", fmt.Sprintf("have %d then fmt%d len %d and all its chunks", have, f, l), in, -1))
+					var v [4]byte
+					binary.BigEndian.PutUint32(v[:], 1<<16)
+					in2 := append(append(stagePrefixTail(st), first...), msgBytes(2, 1, 0, 0, v[:])...)
+					big := l
+					if big > 1<<16 {
+						big = 1 << 16
+					}
+					in2 = append(in2, rawChunk(f, 3, 0, uint32(l), 20, 0, false, 0, make([]byte, big))...)
+					in2 = append(in2, rawChunk(3, 3, 0, 0, 0, 0, false, 0, make([]byte, 1<<16))...)
+					cs = append(cs, mkCase(st, "msglen-grows-mid-message+chunksize", fmt.Sprintf("have %d, set chunk size 65536, fmt%d len %d", have, f, l), in2, -1))
+				}
+			}
+		}
+	}
 	// (vii) fragmentation: the canonical publish session cut at every offset / byte-wise
 	{
 		full := stagePrefix("publishing")[1+1536+1536:]
